@@ -1,4 +1,638 @@
+/-
+  C19 — error formatters lose nothing: every issue appears once at its own path.
+  Theorems about the model in Gozod/Model/Issues.lean (see notes/C19.md for the reading decisions).
+-/
 import Gozod.Model.Issues
+import Gozod.Model.IssuesSpec
 namespace Gozod.C19
 open Gozod.Issues
+
+/-! ## FlattenError -/
+
+/-- the field an issue belongs to: `fmt.Sprintf("%v", issue.Path[0])` -/
+def headKey (i : Issue) : Option String := i.path.head?.map Seg.render
+
+theorem fieldTotal_addField (k m : String) (fs : List (String × List String)) :
+    fieldTotal (addField k m fs) = fieldTotal fs + 1 := by
+  induction fs with
+  | nil => simp [addField, fieldTotal]
+  | cons h r ih =>
+    obtain ⟨k', ms⟩ := h
+    by_cases hk : k' = k
+    · simp [addField, fieldTotal, hk]; omega
+    · simp [addField, fieldTotal, hk, ih]; omega
+
+theorem fieldAt_addField (k' k m : String) (fs : List (String × List String)) :
+    fieldAt k' (addField k m fs) = if k' = k then fieldAt k fs ++ [m] else fieldAt k' fs := by
+  induction fs with
+  | nil =>
+    by_cases h : k' = k
+    · simp [addField, fieldAt, h]
+    · have h' : ¬ k = k' := fun e => h e.symm
+      simp [addField, fieldAt, h, h']
+  | cons hd r ih =>
+    obtain ⟨k₀, ms⟩ := hd
+    by_cases h0 : k₀ = k
+    · subst h0
+      by_cases h : k' = k₀
+      · simp [addField, fieldAt, h]
+      · have h' : ¬ k₀ = k' := fun e => h e.symm
+        simp [addField, fieldAt, h, h']
+    · by_cases h : k' = k
+      · subst h
+        simp [addField, fieldAt, h0, ih]
+      · by_cases h1 : k₀ = k'
+        · simp [addField, fieldAt, h, h1]
+        · simp [addField, fieldAt, h0, h, h1, ih]
+
+theorem flattenStep_count (f : Flat) (i : Issue) : (flattenStep f i).count = f.count + 1 := by
+  unfold flattenStep
+  split
+  · simp [Flat.count]; omega
+  · simp [Flat.count, fieldTotal_addField]; omega
+
+theorem foldl_flatten_count (is : List Issue) (f : Flat) :
+    (is.foldl flattenStep f).count = f.count + is.length := by
+  induction is generalizing f with
+  | nil => simp
+  | cons i r ih => simp [List.foldl, ih, flattenStep_count]; omega
+
+/-- **Flatten loses nothing**: formErrors plus all fieldErrors lists hold exactly one message per issue. -/
+theorem c19_flatten_count (is : List Issue) : (flatten is).count = is.length := by
+  have h := foldl_flatten_count is ⟨[], []⟩
+  simpa [flatten, Flat.count, fieldTotal] using h
+
+theorem foldl_flatten_form (is : List Issue) (f : Flat) :
+    (is.foldl flattenStep f).form = f.form ++ (is.filter (fun i => i.path.isEmpty)).map Issue.msg := by
+  induction is generalizing f with
+  | nil => simp
+  | cons i r ih =>
+    simp only [List.foldl, ih]
+    unfold flattenStep
+    cases hp : i.path with
+    | nil => simp [List.filter, hp]
+    | cons s t => simp [List.filter, hp]
+
+theorem foldl_flatten_field (k : String) (is : List Issue) (f : Flat) :
+    fieldAt k (is.foldl flattenStep f).fields
+      = fieldAt k f.fields ++ (is.filter (fun i => headKey i == some k)).map Issue.msg := by
+  induction is generalizing f with
+  | nil => simp
+  | cons i r ih =>
+    simp only [List.foldl, ih]
+    unfold flattenStep
+    cases hp : i.path with
+    | nil => simp [List.filter, headKey, hp]
+    | cons s t =>
+      by_cases h : s.render = k
+      · simp [List.filter, headKey, hp, fieldAt_addField, h]
+      · have h' : ¬ k = s.render := fun e => h e.symm
+        have hb : (s.render == k) = false := by simp [h]
+        simp [List.filter, headKey, hp, fieldAt_addField, h', hb]
+
+/-- **Flatten files every message where its path says** (and nothing else): formErrors is exactly
+    the messages of the issues with an empty path, in order … -/
+theorem c19_flatten_form (is : List Issue) :
+    (flatten is).form = (is.filter (fun i => i.path.isEmpty)).map Issue.msg := by
+  simp [flatten, foldl_flatten_form]
+
+/-- … and `fieldErrors[k]` is exactly the messages of the issues whose first path element renders to `k`. -/
+theorem c19_flatten_field (k : String) (is : List Issue) :
+    fieldAt k (flatten is).fields = (is.filter (fun i => headKey i == some k)).map Issue.msg := by
+  simp [flatten, foldl_flatten_field, fieldAt]
+
+/-- membership form of the placement theorem -/
+theorem c19_flatten_place (is : List Issue) (i : Issue) (hi : i ∈ is) :
+    match i.path with
+    | [] => i.msg ∈ (flatten is).form
+    | s :: _ => i.msg ∈ fieldAt s.render (flatten is).fields := by
+  cases hp : i.path with
+  | nil =>
+    simp only [c19_flatten_form]
+    exact List.mem_map.mpr ⟨i, List.mem_filter.mpr ⟨hi, by simp [hp]⟩, rfl⟩
+  | cons s t =>
+    simp only [c19_flatten_field]
+    exact List.mem_map.mpr ⟨i, List.mem_filter.mpr ⟨hi, by simp [headKey, hp]⟩, rfl⟩
+
+example : (flatten [.mk .custom [.key "a", .idx 1] "m1" [] [], .mk .invalidUnion [] "m2" [] [],
+    .mk .tooBig [.key "a"] "m3" [] []]) = ⟨["m2"], [("a", ["m1", "m3"])]⟩ := by decide
+
+/-! ## TreeifyError -/
+
+theorem Tree.count_empty : Tree.empty.count = 0 := by
+  simp [Tree.empty, Tree.count, countProps, countItems]
+
+theorem Tree.count_addErr (m : String) (t : Tree) : (t.addErr m).count = t.count + 1 := by
+  cases t; simp [Tree.addErr, Tree.count]; omega
+
+theorem countProps_updProp (k : String) (f : Tree → Tree) (hf : ∀ t, (f t).count = t.count + 1)
+    (ps : List (String × Tree)) : countProps (updProp k f ps) = countProps ps + 1 := by
+  induction ps with
+  | nil => simp [updProp, countProps, hf, Tree.count_empty]
+  | cons h r ih =>
+    obtain ⟨k', t⟩ := h
+    by_cases hk : k' = k
+    · simp [updProp, countProps, hk, hf]; omega
+    · simp [updProp, countProps, hk, ih]; omega
+
+theorem countItems_updItem (f : Tree → Tree) (hf : ∀ t, (f t).count = t.count + 1)
+    (n : Nat) (ts : List Tree) : countItems (updItem f n ts) = countItems ts + 1 := by
+  induction n generalizing ts with
+  | zero => cases ts <;> simp [updItem, countItems, hf, Tree.count_empty]; omega
+  | succ n ih =>
+    cases ts with
+    | nil => simp [updItem, countItems, ih, Tree.count_empty]
+    | cons t r => simp [updItem, countItems, ih]; omega
+
+theorem Tree.count_insert (p : List Seg) (m : String) (t : Tree) :
+    (t.insert p m).count = t.count + 1 := by
+  induction p generalizing t with
+  | nil => simp [Tree.insert, Tree.count_addErr]
+  | cons s r ih =>
+    cases t with
+    | node e ps ts =>
+      cases s with
+      | key k => simp [Tree.insert, Tree.count, countProps_updProp k _ ih]; omega
+      | idx n => simp [Tree.insert, Tree.count, countItems_updItem _ ih]; omega
+
+theorem foldl_tree_count (is : List Issue) (t : Tree) :
+    (is.foldl (fun t i => t.insert i.path i.msg) t).count = t.count + is.length := by
+  induction is generalizing t with
+  | nil => simp
+  | cons i r ih => simp [List.foldl, ih, Tree.count_insert]; omega
+
+/-- **Treeify loses nothing**: the tree holds exactly one message per issue. -/
+theorem c19_tree_count (is : List Issue) : (treeify is).count = is.length := by
+  simp [treeify, foldl_tree_count, Tree.count_empty]
+
+theorem Tree.at_empty (p : List Seg) : Tree.empty.at p = [] := by
+  induction p with
+  | nil => simp [Tree.at, Tree.empty]
+  | cons s r ih =>
+    cases s with
+    | key k => simpa [Tree.at, Tree.empty, propAt] using ih
+    | idx n => simpa [Tree.at, Tree.empty] using ih
+
+theorem propAt_updProp (k' k : String) (f : Tree → Tree) (ps : List (String × Tree)) :
+    (propAt k' (updProp k f ps)).getD Tree.empty
+      = if k' = k then f ((propAt k ps).getD Tree.empty) else (propAt k' ps).getD Tree.empty := by
+  induction ps with
+  | nil =>
+    by_cases h : k' = k
+    · simp [updProp, propAt, h]
+    · have h' : ¬ k = k' := fun e => h e.symm
+      simp [updProp, propAt, h, h']
+  | cons hd r ih =>
+    obtain ⟨k₀, t⟩ := hd
+    by_cases h0 : k₀ = k
+    · subst h0
+      by_cases h : k' = k₀
+      · simp [updProp, propAt, h]
+      · have h' : ¬ k₀ = k' := fun e => h e.symm
+        simp [updProp, propAt, h, h']
+    · by_cases h : k' = k
+      · subst h
+        simp [updProp, propAt, h0, ih]
+      · by_cases h1 : k₀ = k'
+        · simp [updProp, propAt, h, h1]
+        · simp [updProp, propAt, h0, h, h1, ih]
+
+theorem getD_updItem (f : Tree → Tree) (n j : Nat) (ts : List Tree) :
+    (updItem f n ts).getD j Tree.empty
+      = if j = n then f (ts.getD n Tree.empty) else ts.getD j Tree.empty := by
+  induction n generalizing j ts with
+  | zero =>
+    cases ts with
+    | nil => cases j <;> simp [updItem]
+    | cons t r => cases j <;> simp [updItem]
+  | succ n ih =>
+    cases ts with
+    | nil =>
+      cases j with
+      | zero => simp [updItem]
+      | succ j => have := ih j []; simp [updItem] at this ⊢; exact this
+    | cons t r =>
+      cases j with
+      | zero => simp [updItem]
+      | succ j => have := ih j r; simp [updItem] at this ⊢; exact this
+
+theorem Tree.at_insert (q : List Seg) (m : String) (p : List Seg) (t : Tree) :
+    (t.insert q m).at p = if p = q then t.at p ++ [m] else t.at p := by
+  induction q generalizing p t with
+  | nil =>
+    cases t with
+    | node e ps ts =>
+      cases p with
+      | nil => simp [Tree.insert, Tree.addErr, Tree.at]
+      | cons s r => cases s <;> simp [Tree.insert, Tree.addErr, Tree.at]
+  | cons s q' ih =>
+    cases t with
+    | node e ps ts =>
+      cases s with
+      | key k =>
+        cases p with
+        | nil => simp [Tree.insert, Tree.at]
+        | cons s' p' =>
+          cases s' with
+          | key k' =>
+            simp only [Tree.insert, Tree.at, propAt_updProp]
+            by_cases hk : k' = k
+            · subst hk; simp [ih]
+            · simp [hk]
+          | idx n' => simp [Tree.insert, Tree.at]
+      | idx n =>
+        cases p with
+        | nil => simp [Tree.insert, Tree.at]
+        | cons s' p' =>
+          cases s' with
+          | key k' => simp [Tree.insert, Tree.at]
+          | idx n' =>
+            simp only [Tree.insert, Tree.at, getD_updItem]
+            by_cases hn : n' = n
+            · subst hn; simp [ih]
+            · simp [hn]
+
+theorem foldl_tree_at (p : List Seg) (is : List Issue) (t : Tree) :
+    (is.foldl (fun t i => t.insert i.path i.msg) t).at p
+      = t.at p ++ (is.filter (fun i => i.path == p)).map Issue.msg := by
+  induction is generalizing t with
+  | nil => simp
+  | cons i r ih =>
+    simp only [List.foldl, ih, Tree.at_insert]
+    by_cases h : p = i.path
+    · subst h; simp [List.filter]
+    · have h' : ¬ i.path = p := fun e => h e.symm
+      have hb : (i.path == p) = false := by simp [h']
+      simp [List.filter, h, hb]
+
+/-- **Treeify files every message at the node its typed path denotes** (string key → Properties,
+    int → Items), and nothing else: the node at `p` holds exactly the messages of the issues whose
+    path is `p`, in order. -/
+theorem c19_tree_place (p : List Seg) (is : List Issue) :
+    (treeify is).at p = (is.filter (fun i => i.path == p)).map Issue.msg := by
+  simp [treeify, foldl_tree_at, Tree.at_empty]
+
+/-- in particular typed segments are not conflated: the key "0" and the index 0 are different nodes -/
+example : (treeify [.mk .custom [.key "0"] "m1" [] [], .mk .custom [.idx 0] "m2" [] []]).at [.idx 0] = ["m2"] := by
+  decide
+example : (treeify [.mk .custom [.idx 3, .key "_errors"] "m1" [] []]).count = 1 := by decide
+
+/-! ## FormatError -/
+
+open Gozod.Issues.Spec (Entry leavesIssue leavesIssues leavesBranches)
+
+mutual
+/-- the number of messages FormatError carries for an issue: one, or — for a wrapper issue with
+    nested issues (invalid_union with branch errors, invalid_key / invalid_element with
+    sub-issues) — one per nested leaf -/
+def leafCount : Issue → Nat
+  | .mk code _ _ errors issues =>
+    match code with
+    | .invalidUnion => if anyNonEmpty errors then leafCountBranches errors else 1
+    | .invalidKey => match issues with | [] => 1 | i :: r => leafCountIssues (i :: r)
+    | .invalidElement => match issues with | [] => 1 | i :: r => leafCountIssues (i :: r)
+    | _ => 1
+def leafCountIssues : List Issue → Nat
+  | [] => 0
+  | i :: r => leafCount i + leafCountIssues r
+def leafCountBranches : List (List Issue) → Nat
+  | [] => 0
+  | b :: bs => leafCountIssues b + leafCountBranches bs
+end
+
+/-- filing a list of (path, message) entries one after the other -/
+def fileAll (es : List Entry) (t : Fmt) : Fmt :=
+  es.foldl (fun t e => Fmt.fileAt (e.1.map Seg.render) e.2 t) t
+
+theorem fileAll_append (a b : List Entry) (t : Fmt) : fileAll (a ++ b) t = fileAll b (fileAll a t) := by
+  simp [fileAll, List.foldl_append]
+
+theorem leavesIssue_ne_nil (pre : List Seg) (i : Issue) : leavesIssue pre i ≠ [] := by
+  cases i with
+  | mk code path msg errors issues =>
+    cases code <;> simp [leavesIssue] <;> split <;> simp_all
+
+theorem leavesIssues_cons_ne_nil (pre : List Seg) (i : Issue) (r : List Issue) :
+    leavesIssues pre (i :: r) ≠ [] := by
+  simp [leavesIssues, leavesIssue_ne_nil]
+
+theorem leavesBranches_isEmpty (pre : List Seg) (bs : List (List Issue)) :
+    (leavesBranches pre bs).isEmpty = !anyNonEmpty bs := by
+  induction bs with
+  | nil => simp [leavesBranches, anyNonEmpty]
+  | cons b r ih =>
+    cases b with
+    | nil => simpa [leavesBranches, leavesIssues, anyNonEmpty] using ih
+    | cons i is =>
+      have := leavesIssues_cons_ne_nil pre i is
+      simp [leavesBranches, anyNonEmpty, this]
+
+mutual
+theorem fmtIssue_eq : ∀ (i : Issue) (pre : List Seg) (t : Fmt),
+    fmtIssue pre i t = fileAll (leavesIssue pre i) t
+  | .mk code path msg errors issues, pre, t => by
+    cases code
+    case invalidUnion =>
+      have hb := leavesBranches_isEmpty (pre ++ path) errors
+      cases hne : anyNonEmpty errors
+      · simp [hne] at hb
+        simp [fmtIssue, leavesIssue, hne, hb, fileAll]
+      · simp [hne] at hb
+        simp [fmtIssue, leavesIssue, hne, hb, fmtBranches_eq errors (pre ++ path) t]
+    case invalidKey =>
+      cases issues with
+      | nil => simp [fmtIssue, leavesIssue, leavesIssues, fileAll]
+      | cons i r =>
+        have := leavesIssues_cons_ne_nil (pre ++ path) i r
+        simp [fmtIssue, leavesIssue, this, fmtIssues_eq (i :: r) (pre ++ path) t]
+    case invalidElement =>
+      cases issues with
+      | nil => simp [fmtIssue, leavesIssue, leavesIssues, fileAll]
+      | cons i r =>
+        have := leavesIssues_cons_ne_nil (pre ++ path) i r
+        simp [fmtIssue, leavesIssue, this, fmtIssues_eq (i :: r) (pre ++ path) t]
+    all_goals simp [fmtIssue, leavesIssue, fileAll]
+theorem fmtIssues_eq : ∀ (is : List Issue) (pre : List Seg) (t : Fmt),
+    fmtIssues pre is t = fileAll (leavesIssues pre is) t
+  | [], pre, t => by simp [fmtIssues, leavesIssues, fileAll]
+  | i :: r, pre, t => by
+    simp [fmtIssues, leavesIssues, fileAll_append, fmtIssue_eq i pre t, fmtIssues_eq r pre]
+theorem fmtBranches_eq : ∀ (bs : List (List Issue)) (pre : List Seg) (t : Fmt),
+    fmtBranches pre bs t = fileAll (leavesBranches pre bs) t
+  | [], pre, t => by simp [fmtBranches, leavesBranches, fileAll]
+  | b :: r, pre, t => by
+    simp [fmtBranches, leavesBranches, fileAll_append, fmtIssues_eq b pre t, fmtBranches_eq r pre]
+end
+
+/-- **FormatError is "file every leaf"**: the report is obtained by filing, in order, one message
+    per leaf issue at prefix ++ path.  (`leavesIssues` is the specification's notion of the leaves
+    of an error, IssuesSpec.lean.) -/
+theorem formatError_eq (is : List Issue) : formatError is = fileAll (leavesIssues [] is) Fmt.empty :=
+  fmtIssues_eq is [] Fmt.empty
+
+mutual
+theorem leavesIssue_length : ∀ (i : Issue) (pre : List Seg), (leavesIssue pre i).length = leafCount i
+  | .mk code path msg errors issues, pre => by
+    cases code
+    case invalidUnion =>
+      have hb := leavesBranches_isEmpty (pre ++ path) errors
+      cases hne : anyNonEmpty errors
+      · simp [hne] at hb; simp [leavesIssue, leafCount, hne, hb]
+      · simp [hne] at hb; simp [leavesIssue, leafCount, hne, hb, leavesBranches_length errors (pre ++ path)]
+    case invalidKey =>
+      cases issues with
+      | nil => simp [leavesIssue, leavesIssues, leafCount]
+      | cons i r =>
+        have := leavesIssues_cons_ne_nil (pre ++ path) i r
+        simp [leavesIssue, leafCount, this, leavesIssues_length (i :: r) (pre ++ path)]
+    case invalidElement =>
+      cases issues with
+      | nil => simp [leavesIssue, leavesIssues, leafCount]
+      | cons i r =>
+        have := leavesIssues_cons_ne_nil (pre ++ path) i r
+        simp [leavesIssue, leafCount, this, leavesIssues_length (i :: r) (pre ++ path)]
+    all_goals simp [leavesIssue, leafCount]
+theorem leavesIssues_length : ∀ (is : List Issue) (pre : List Seg), (leavesIssues pre is).length = leafCountIssues is
+  | [], pre => by simp [leavesIssues, leafCountIssues]
+  | i :: r, pre => by simp [leavesIssues, leafCountIssues, leavesIssue_length i pre, leavesIssues_length r pre]
+theorem leavesBranches_length : ∀ (bs : List (List Issue)) (pre : List Seg), (leavesBranches pre bs).length = leafCountBranches bs
+  | [], pre => by simp [leavesBranches, leafCountBranches]
+  | b :: r, pre => by simp [leavesBranches, leafCountBranches, leavesIssues_length b pre, leavesBranches_length r pre]
+end
+
+/-! ### what filing one message does -/
+
+theorem Fmt.count_empty : Fmt.empty.count = 0 := by simp [Fmt.empty, Fmt.count, countKids]
+
+theorem Fmt.count_addErr (m : String) (t : Fmt) : (t.addErr m).count = t.count + 1 := by
+  cases t; simp [Fmt.addErr, Fmt.count]; omega
+
+theorem countKids_updKid (k : String) (f : Fmt → Fmt) (hf : ∀ t, (f t).count = t.count + 1)
+    (ks : List (String × Fmt)) : countKids (updKid k f ks) = countKids ks + 1 := by
+  induction ks with
+  | nil => simp [updKid, countKids, hf, Fmt.count_empty]
+  | cons h r ih =>
+    obtain ⟨k', t⟩ := h
+    by_cases hk : k' = k
+    · simp [updKid, countKids, hk, hf]; omega
+    · simp [updKid, countKids, hk, ih]; omega
+
+/-- a path without the reserved key gets its message filed: the report grows by exactly one -/
+theorem Fmt.count_fileAt (ks : List String) (hk : errorsKey ∉ ks) (m : String) (t : Fmt) :
+    (t.fileAt ks m).count = t.count + 1 := by
+  induction ks generalizing t with
+  | nil => simp [Fmt.fileAt, Fmt.count_addErr]
+  | cons k r ih =>
+    cases t with
+    | node e kids =>
+      have hk1 : ¬ k = errorsKey := fun h => hk (by simp [h])
+      have hr : errorsKey ∉ r := fun h => hk (by simp [h])
+      simp [Fmt.fileAt, hk1, Fmt.count, countKids_updKid k _ (ih hr)]; omega
+
+theorem Fmt.at_empty (p : List String) : Fmt.empty.at p = [] := by
+  induction p with
+  | nil => simp [Fmt.at, Fmt.empty]
+  | cons s r ih => simpa [Fmt.at, Fmt.empty, kidAt] using ih
+
+theorem kidAt_updKid (k' k : String) (f : Fmt → Fmt) (ps : List (String × Fmt)) :
+    (kidAt k' (updKid k f ps)).getD Fmt.empty
+      = if k' = k then f ((kidAt k ps).getD Fmt.empty) else (kidAt k' ps).getD Fmt.empty := by
+  induction ps with
+  | nil =>
+    by_cases h : k' = k
+    · simp [updKid, kidAt, h]
+    · have h' : ¬ k = k' := fun e => h e.symm
+      simp [updKid, kidAt, h, h']
+  | cons hd r ih =>
+    obtain ⟨k₀, t⟩ := hd
+    by_cases h0 : k₀ = k
+    · subst h0
+      by_cases h : k' = k₀
+      · simp [updKid, kidAt, h]
+      · have h' : ¬ k₀ = k' := fun e => h e.symm
+        simp [updKid, kidAt, h, h']
+    · by_cases h : k' = k
+      · subst h
+        simp [updKid, kidAt, h0, ih]
+      · by_cases h1 : k₀ = k'
+        · simp [updKid, kidAt, h, h1]
+        · simp [updKid, kidAt, h0, h, h1, ih]
+
+/-- … and it is filed at the node the chain of keys denotes, leaving every other node as it was -/
+theorem Fmt.at_fileAt (q : List String) (hq : errorsKey ∉ q) (m : String) (p : List String) (t : Fmt) :
+    (t.fileAt q m).at p = if p = q then t.at p ++ [m] else t.at p := by
+  induction q generalizing p t with
+  | nil =>
+    cases t with
+    | node e kids =>
+      cases p with
+      | nil => simp [Fmt.fileAt, Fmt.addErr, Fmt.at]
+      | cons s r => simp [Fmt.fileAt, Fmt.addErr, Fmt.at]
+  | cons k q' ih =>
+    cases t with
+    | node e kids =>
+      have hk1 : ¬ k = errorsKey := fun h => hq (by simp [h])
+      have hr : errorsKey ∉ q' := fun h => hq (by simp [h])
+      cases p with
+      | nil => simp [Fmt.fileAt, hk1, Fmt.at]
+      | cons k' p' =>
+        simp only [Fmt.fileAt, hk1, if_false, Fmt.at, kidAt_updKid]
+        by_cases hk : k' = k
+        · subst hk; simp [ih hr]
+        · simp [hk]
+
+/-! ### the reserved key -/
+
+/-- no effective path of the error (prefix ++ path of a leaf) has a segment that renders to
+    `"_errors"` — the region in which FormatError is proved to lose nothing -/
+def reservedFree (is : List Issue) : Bool :=
+  (leavesIssues [] is).all (fun e => !(e.1.map Seg.render).contains errorsKey)
+
+theorem fileAll_count (es : List Entry) (h : ∀ e ∈ es, errorsKey ∉ e.1.map Seg.render) (t : Fmt) :
+    (fileAll es t).count = t.count + es.length := by
+  induction es generalizing t with
+  | nil => simp [fileAll]
+  | cons e r ih =>
+    have h1 := h e (by simp)
+    have h2 : ∀ e ∈ r, errorsKey ∉ e.1.map Seg.render := fun e he => h e (by simp [he])
+    have := ih h2 (Fmt.fileAt (e.1.map Seg.render) e.2 t)
+    simp [fileAll] at this ⊢
+    rw [this, Fmt.count_fileAt _ (by simpa using h1)]; omega
+
+theorem fileAll_at (es : List Entry) (h : ∀ e ∈ es, errorsKey ∉ e.1.map Seg.render) (p : List String) (t : Fmt) :
+    (fileAll es t).at p = t.at p ++ (es.filter (fun e => e.1.map Seg.render == p)).map (·.2) := by
+  induction es generalizing t with
+  | nil => simp [fileAll]
+  | cons e r ih =>
+    have h1 := h e (by simp)
+    have h2 : ∀ e ∈ r, errorsKey ∉ e.1.map Seg.render := fun e he => h e (by simp [he])
+    have := ih h2 (Fmt.fileAt (e.1.map Seg.render) e.2 t)
+    simp only [fileAll, List.foldl] at this ⊢
+    rw [this, Fmt.at_fileAt _ (by simpa using h1)]
+    by_cases hp : p = e.1.map Seg.render
+    · subst hp; simp [List.filter]
+    · have hp' : ¬ e.1.map Seg.render = p := fun x => hp x.symm
+      have hb : (e.1.map Seg.render == p) = false := by simp [hp']
+      simp [List.filter, hp, hb]
+
+theorem reservedFree_iff (is : List Issue) :
+    reservedFree is = true ↔ ∀ e ∈ leavesIssues [] is, errorsKey ∉ e.1.map Seg.render := by
+  simp [reservedFree, List.all_eq_true]
+
+/-- the full statement for FormatError: one message per leaf, whatever the paths -/
+def c19_format_count_full : Prop :=
+  ∀ is : List Issue, (formatError is).count = leafCountIssues is
+
+/-- **FormatError loses nothing** outside the reserved-key region: the report carries exactly one
+    message per issue, or per nested leaf issue for wrapper issues. -/
+theorem c19_format_count_partial (is : List Issue) (h : reservedFree is = true) :
+    (formatError is).count = leafCountIssues is := by
+  rw [formatError_eq, fileAll_count _ ((reservedFree_iff is).mp h), Fmt.count_empty,
+    leavesIssues_length]; omega
+
+/-- witness: inside the region the full statement is false — the only issue of the error is lost -/
+theorem c19_format_count_full_false : ¬ c19_format_count_full := by
+  intro h
+  have := h [.mk .custom [.key "a", .key "_errors"] "m1" [] []]
+  revert this; decide
+
+/-- **FormatError files every message at the node its rendered path denotes**, and nothing else
+    (outside the reserved-key region): the node reached by the chain of keys `p` holds exactly the
+    messages of the leaves whose prefix ++ path renders to `p`, in order. -/
+theorem c19_format_place_partial (is : List Issue) (h : reservedFree is = true) (p : List String) :
+    (formatError is).at p
+      = ((leavesIssues [] is).filter (fun e => e.1.map Seg.render == p)).map (·.2) := by
+  rw [formatError_eq, fileAll_at _ ((reservedFree_iff is).mp h), Fmt.at_empty]; simp
+
+/-- witness: a reserved segment in the middle is skipped, so the message is filed one level up -/
+theorem c19_format_place_full_false :
+    (formatError [.mk .custom [.key "_errors", .key "z"] "m1" [] []]).at ["z"] = ["m1"] ∧
+    (formatError [.mk .custom [.key "_errors", .key "z"] "m1" [] []]).at ["_errors", "z"] = [] := by
+  decide
+
+example : reservedFree [.mk .invalidUnion [.key "u"] "m0" [[.mk .tooBig [.idx 1] "m1" [] []], []] [],
+    .mk .invalidElement [.idx 0] "m2" [] []] = true := by decide
+example : (formatError [.mk .invalidUnion [.key "u"] "m0" [[.mk .tooBig [.idx 1] "m1" [] []], []] [],
+    .mk .invalidElement [.idx 0] "m2" [] []]).at ["u", "1"] = ["m1"] := by decide
+
+/-! ### the code before the patch (pending/C19-format-wrappers.diff) -/
+
+/-- a real `Union([String(),Int()]).Parse(true)` error: one invalid_union issue, no branch errors -/
+theorem legacy_format_drops_union : (formatLegacy [.mk .invalidUnion [] "m1" [] []]).count = 0 := by decide
+/-- a real `Array(String()).Parse([]any{1})`-shaped issue without sub-issues -/
+theorem legacy_format_drops_element : (formatLegacy [.mk .invalidElement [.idx 0] "m1" [] []]).count = 0 := by decide
+theorem legacy_format_drops_unknown_code : (formatLegacy [.mk (.other "my_code") [.key "a"] "m1" [] []]).count = 0 := by decide
+/-- the sub-issue of element 1 was filed at the root instead of under "1" -/
+theorem legacy_format_misfiles_nested :
+    (formatLegacy [.mk .invalidElement [.idx 1] "m0" [] [.mk .invalidType [] "m1" [] []]]).at [] = ["m1"] ∧
+    (formatError [.mk .invalidElement [.idx 1] "m0" [] [.mk .invalidType [] "m1" [] []]]).at ["1"] = ["m1"] := by decide
+
+/-! ## PrettifyError -/
+
+/-- **Prettify loses nothing**: the report is the "; "-join of exactly one segment per issue … -/
+theorem c19_prettify_count (is : List Issue) (h : is ≠ []) :
+    prettify is = "; ".intercalate (is.map prettySeg) ∧ (is.map prettySeg).length = is.length := by
+  cases is with
+  | nil => exact absurd rfl h
+  | cons i r => simp [prettify, prettySegs]
+
+/-- … and the segment of an issue is its message, preceded by its path in dot notation when the
+    path is not empty. -/
+theorem c19_prettify_place (i : Issue) :
+    prettySeg i = if i.path = [] then i.msg else dotPath i.path ++ ": " ++ i.msg := by
+  unfold prettySeg
+  cases h : i.path <;> simp
+
+/-- the full statement about the position: the dot notation identifies the path -/
+def c19_dotpath_injective_full : Prop := ∀ p q : List Seg, dotPath p = dotPath q → p = q
+
+/-- witness: it does not — a key is copied between `["` and `"]` without escaping, and an empty
+    first key renders to nothing -/
+theorem c19_dotpath_injective_full_false : ¬ c19_dotpath_injective_full := by
+  intro h
+  have := h [.key "-a\"][\"-b"] [.key "-a", .key "-b"] (by decide)
+  revert this; decide
+
+theorem dotpath_empty_key : dotPath [.key ""] = dotPath [] := by decide
+
+/-- the code before pending/C19-dotpath-first-segment.diff wrote segment 0 verbatim:
+    `["a.b"]` and `["a","b"]` were the same text; now they differ -/
+theorem legacy_dotpath_conflates :
+    dotPathLegacy [.key "a.b"] = dotPathLegacy [.key "a", .key "b"] ∧
+    dotPath [.key "a.b"] ≠ dotPath [.key "a", .key "b"] := by decide
+
+example : prettify [.mk .tooBig [.key "users", .idx 0, .key "first-name"] "m1" [] [], .mk .custom [] "m2" [] []]
+    = "users[0][\"first-name\"]: m1; m2" := by decide
+
+/-! ## A non-empty error never formats to an empty report -/
+
+theorem leafCountIssues_pos (i : Issue) (r : List Issue) : 0 < leafCountIssues (i :: r) := by
+  have h := leavesIssues_cons_ne_nil [] i r
+  rw [← leavesIssues_length (i :: r) []]
+  exact List.length_pos_iff.mpr h
+
+/-- **c19_nonempty**: for a non-empty error Flatten, Treeify and Prettify carry at least one
+    message, and so does FormatError outside the reserved-key region. -/
+theorem c19_nonempty (is : List Issue) (h : is ≠ []) :
+    0 < (flatten is).count ∧ 0 < (treeify is).count ∧ (prettySegs is).length = is.length ∧
+    (reservedFree is = true → 0 < (formatError is).count) := by
+  cases is with
+  | nil => exact absurd rfl h
+  | cons i r =>
+    refine ⟨by simp [c19_flatten_count], by simp [c19_tree_count], by simp [prettySegs], fun hf => ?_⟩
+    rw [c19_format_count_partial _ hf]; exact leafCountIssues_pos i r
+
+/-- the full statement for FormatError, and the witness that it fails in the reserved-key region -/
+def c19_nonempty_format_full : Prop := ∀ is : List Issue, is ≠ [] → 0 < (formatError is).count
+
+theorem c19_nonempty_format_full_false : ¬ c19_nonempty_format_full := by
+  intro h
+  have := h [.mk .invalidType [.key "_errors"] "m1" [] []] (by simp)
+  revert this; decide
+
+/-- before the patch the error of a real failed `Union([String(),Int()]).Parse(true)` formatted to `{"_errors":[]}` -/
+theorem legacy_nonempty_false :
+    ∃ is : List Issue, is ≠ [] ∧ reservedFree is = true ∧ (formatLegacy is).count = 0 :=
+  ⟨[.mk .invalidUnion [] "m1" [] []], by simp, by decide, by decide⟩
+
 end Gozod.C19
